@@ -50,6 +50,21 @@ EquivalentPointed(Ta, Tb) == /\ Ta.gens = Tb.gens /\ NRows(Ta) = NRows(Tb)
 EquivalentActions(Ta, Tb) == /\ Ta.gens = Tb.gens /\ NRows(Ta) = NRows(Tb)
                              /\ \E x \in RowsOf(Tb) : IsEquivalence(Ta, Tb, MapFrom(Ta, Tb, {0}, [t \in {0} |-> x]))
 
+\* canonical form of a transitive action up to equivalence (unpointed): rows renumbered breadth-first
+\* from a base row, generators taken in the order 1..k,-1..-k; minimised over the base row
+GenSeq(T) == [j \in 1..(2 * T.gens) |-> IF j <= T.gens THEN j ELSE T.gens - j]
+RECURSIVE BfsAdd(_,_,_,_)
+BfsAdd(T, order, r, j) == IF j > 2 * T.gens THEN order ELSE
+   LET t == Img(T, r, GenSeq(T)[j]) IN BfsAdd(T, IF t \in ToSet(order) THEN order ELSE Append(order, t), r, j + 1)
+RECURSIVE BfsRows(_,_,_)
+BfsRows(T, order, k) == IF k > Len(order) THEN order ELSE BfsRows(T, BfsAdd(T, order, order[k], 1), k + 1)
+RelabelFrom(T, x) == LET order == BfsRows(T, <<x>>, 1)
+                         pos == TLCEval([r \in RowsOf(T) |-> CHOOSE k \in 1..Len(order) : order[k] = r])
+                     IN FlattenSeq([k \in 1..Len(order) |-> [j \in 1..(2 * T.gens) |-> pos[Img(T, order[k], GenSeq(T)[j])]]])
+RECURSIVE LexLess(_,_)
+LexLess(a, b) == IF a = <<>> THEN FALSE ELSE IF Head(a) # Head(b) THEN Head(a) < Head(b) ELSE LexLess(Tail(a), Tail(b))
+CanonAct(T) == LET cands == {RelabelFrom(T, x) : x \in RowsOf(T)} IN CHOOSE c \in cands : \A d \in cands : ~LexLess(d, c)
+
 (* ---------------------------------------------------------------- permutations *)
 IsPermOf(p, n) == DOMAIN p = 1..n /\ {p[x] : x \in 1..n} = 1..n
 IdP(n) == [x \in 1..n |-> x]
@@ -82,7 +97,9 @@ PairOrbit(Ta, Tb, frontier, seen) == IF frontier = {} THEN seen ELSE
 ProductOrbit(Ta, Tb) == PairOrbit(Ta, Tb, {<<0, 0>>}, {<<0, 0>>})
 
 (* ---------------------------------------------------------------- subgroup classes by homomorphisms *)
-PermsOf(k) == {p \in [1..k -> 1..k] : \A a, b \in 1..k : a # b => p[a] # p[b]}
+RECURSIVE PermSeqs(_)
+PermSeqs(S) == IF S = {} THEN {<<>>} ELSE UNION {{<<x>> \o p : p \in PermSeqs(S \ {x})} : x \in S}
+PermsOf(k) == PermSeqs(1..k)
 RECURSIVE TraceH(_,_,_)
 TraceH(h, w, x) == IF w = <<>> THEN x ELSE TraceH(h, Tail(w), LetterP(h, Head(w))[x])
 Kills(h, k, w) == \A x \in 1..k : TraceH(h, w, x) = x
